@@ -19,7 +19,7 @@ INF = float("inf")
 
 INTS = [0, 1, -1, 2, 255, 256, 65535, 65536, 2 ** 31 - 1, 2 ** 31, -2 ** 31, 2 ** 53 - 1, 2 ** 53, 2 ** 53 + 1,
         -(2 ** 53) + 1, -(2 ** 53), -(2 ** 53) - 1, 2 ** 63 - 1, 2 ** 63, -2 ** 63, 2 ** 64, 10 ** 40, -10 ** 40,
-        3 ** 2000, -(7 ** 4000 // 10 ** 10)]
+        3 ** 2000, -(7 ** 4000 // 10 ** 10), int("f" * 4000, 16), -int("7" + "0" * 4200, 16)]
 FLOATS = [0.0, -0.0, 1.0, -1.0, 1.5, 0.1, 1e22, 1e-7, 5e-324, 1.7976931348623157e308, 2.0 ** 53, 2.0 ** 53 + 2, 9007199254740993.0,
           INF, -INF, NAN_Q, NAN_NEG, NAN_PAYLOAD, NAN_S, 1e16, 123456789012345678.0, 3.141592653589793]
 STRS = ["", "a", "abc", "é", "\U0001f600", "\ud800", "\udc80x", "x\udfff", "𐀀", "a\x00b", "q" * 300, "'quote\"s\\",
@@ -124,19 +124,19 @@ def build_case(seed, i):
         if mode == 2:
             vals = [fams[rng.randrange(len(fams))] for _ in range(3)]
         code = _replace_consts(_base("module"), {987654321: vals[0], 987654322: vals[1], 987654323: vals[2]})
-        return "w9:%d:module-consts" % i, code, repr(vals)
+        return "w9:%d:module-consts" % i, code, H.short(vals, 2000)
     if mode in (3, 4):      # constants inside a function (constant 0 is the docstring slot)
         vals = [value(rng) for _ in range(3)]
         code = _replace_in_child(_base("func"), lambda c: _replace_consts(c, {987654321: vals[0], 987654322: vals[1], 987654323: vals[2]}))
-        return "w9:%d:func-consts" % i, code, repr(vals)
+        return "w9:%d:func-consts" % i, code, H.short(vals, 2000)
     if mode == 5:           # docstring position
         s = STRS[rng.randrange(len(STRS))]
         code = _replace_in_child(_base("docfunc"), lambda c: _replace_consts(c, {"DOCSTRING": s, 987654321: value(rng)}))
-        return "w9:%d:docstring" % i, code, repr(s)
+        return "w9:%d:docstring" % i, code, H.short(s, 2000)
     if mode == 6:           # unreferenced constant (additional argument)
         vals = [value(rng), value(rng)]
         code = _replace_in_child(_base("unused"), lambda c: _replace_consts(c, {987654321: vals[0], 987654322: vals[1]}))
-        return "w9:%d:additional-arg" % i, code, repr(vals)
+        return "w9:%d:additional-arg" % i, code, H.short(vals, 2000)
     s = STRS[rng.randrange(len(STRS))] or "empty"
     if mode == 7:           # filename / name
         which = rng.choice(["co_filename", "co_name", "both"])
@@ -150,16 +150,16 @@ def build_case(seed, i):
         mod = _replace_in_child(_base("func"), fn)
         if which != "co_name":
             mod = rebuild(mod, co_filename=s)
-        return "w9:%d:%s" % (i, which), mod, repr(s)
+        return "w9:%d:%s" % (i, which), mod, H.short(s, 2000)
     if mode == 8:           # global / attribute names
         def fn(c):
             return rebuild(c, co_names=tuple(s if n == "attr" else n for n in c.co_names))
-        return "w9:%d:names" % i, _replace_in_child(_base("func"), fn), repr(s)
+        return "w9:%d:names" % i, _replace_in_child(_base("func"), fn), H.short(s, 2000)
     if mode == 9:           # local variable and parameter names
         tgt = rng.choice(["loc", "a", "b"])
         def fn(c):
             return rebuild(c, co_varnames=tuple(s if n == tgt else n for n in c.co_varnames))
-        return "w9:%d:varnames-%s" % (i, tgt), _replace_in_child(_base("func"), fn), repr(s)
+        return "w9:%d:varnames-%s" % (i, tgt), _replace_in_child(_base("func"), fn), H.short(s, 2000)
     if mode == 10:          # cell / free variable names
         def outer(c):
             inner = [x for x in c.co_consts if isinstance(x, H.CodeType)][0]
@@ -167,12 +167,12 @@ def build_case(seed, i):
             c2 = rebuild(c, co_consts=tuple(inner2 if x is inner else x for x in c.co_consts),
                          co_cellvars=(s,), co_varnames=tuple(s if n == "fv" else n for n in c.co_varnames))
             return c2
-        return "w9:%d:cell-free" % i, _replace_in_child(_base("closure"), outer), repr(s)
+        return "w9:%d:cell-free" % i, _replace_in_child(_base("closure"), outer), H.short(s, 2000)
     # mode 11: family members side by side
     fam = FAMILIES[rng.randrange(len(FAMILIES))]
     vals = [fam[rng.randrange(len(fam))] for _ in range(3)]
     code = _replace_consts(_base("module"), {987654321: vals[0], 987654322: vals[1], 987654323: vals[2]})
-    return "w9:%d:family" % i, code, repr(vals)
+    return "w9:%d:family" % i, code, H.short(vals, 2000)
 
 
 def source_case(seed, i):
